@@ -24,7 +24,7 @@ Definition wired (i0 o0 e0 : obj) (n : nat) (capture : bool) (idx : nat) (st : s
 
 Definition C02_full : Prop :=
   forall v fail_at openable pl sh i0 o0 e0,
-  std_ok (tab sh) i0 o0 e0 -> is_single_builtin pl = false ->
+  std_ok (tab sh) i0 o0 e0 -> runs_in_shell pl = false ->
   let r := run_pipeline v fail_at openable pl sh in
   res_error r = false ->
   kids_ok (wired i0 o0 e0 (length (p_stages pl)) (p_capture pl)) 0 (p_stages pl) (res_kids r).
@@ -56,7 +56,7 @@ Definition holds_only_own_ends (pc idx : nat) (k : kid) : Prop :=
     (lookup (tab (k_proc k)) x = Some (OPipeR (PStage j), c) -> idx = S j /\ x = 0).
 
 Theorem C02_eof : forall fail_at openable pl sh i0 o0 e0,
-  std_ok (tab sh) i0 o0 e0 -> inh_only (tab sh) -> is_single_builtin pl = false ->
+  std_ok (tab sh) i0 o0 e0 -> inh_only (tab sh) -> runs_in_shell pl = false ->
   let r := run_pipeline v0 fail_at openable pl sh in
   (forall x o c, lookup (tab (res_shell r)) x = Some (o, c) -> exists i, o = OInh i) /\
   (res_error r = false ->
@@ -69,7 +69,7 @@ Proof.
     cbn beta. intros idx st k KS HE. eapply kid_holders; eauto.
 Qed.
 Check C02_eof : forall fail_at openable pl sh i0 o0 e0,
-  std_ok (tab sh) i0 o0 e0 -> inh_only (tab sh) -> is_single_builtin pl = false ->
+  std_ok (tab sh) i0 o0 e0 -> inh_only (tab sh) -> runs_in_shell pl = false ->
   let r := run_pipeline v0 fail_at openable pl sh in
   (forall x o c, lookup (tab (res_shell r)) x = Some (o, c) -> exists i, o = OInh i) /\
   (res_error r = false ->
@@ -77,7 +77,7 @@ Check C02_eof : forall fail_at openable pl sh i0 o0 e0,
 
 (* every stage is forked exactly once and the shell's table is what it was *)
 Theorem C02_once_and_shell_holds_nothing : forall v openable pl sh,
-  is_single_builtin pl = false ->
+  runs_in_shell pl = false ->
   let r := run_pipeline v nf openable pl sh in
   length (res_kids r) = length (p_stages pl) /\ teq_tab (res_shell r) (tab sh).
 Proof.
